@@ -116,6 +116,8 @@ pub struct Driver {
     pub cursor: Option<(u64, usize)>,
     /// C06: file number attributed to each retained record, parallel to the model's records
     pub rec_files: BTreeMap<String, VecDeque<u64>>,
+    /// C06 after crash recovery: (queue, position, payload digest) -> oldest file any such record was attributed to
+    pub attr_all: BTreeMap<(String, u64, u64), u64>,
     /// C15 cumulative accounting
     wal_pending: u64,
     wal_mark: usize,
@@ -147,6 +149,7 @@ impl Driver {
             hw: BTreeMap::new(),
             cursor: None,
             rec_files: BTreeMap::new(),
+            attr_all: BTreeMap::new(),
             wal_pending: 0,
             wal_mark: 0,
             flushed: true,
@@ -177,6 +180,7 @@ impl Driver {
             hw: BTreeMap::new(),
             cursor: None,
             rec_files: BTreeMap::new(),
+            attr_all: BTreeMap::new(),
             wal_pending: 0,
             wal_mark: 0,
             flushed: true,
@@ -210,6 +214,7 @@ impl Driver {
             hw: BTreeMap::new(),
             cursor,
             rec_files: BTreeMap::new(),
+            attr_all: BTreeMap::new(),
             wal_pending: 0,
             wal_mark,
             flushed: true,
@@ -662,6 +667,13 @@ impl Driver {
                     let e = self.rec_files.entry(self.names[*q].clone()).or_default();
                     for _ in 0..lens.len() {
                         e.push_back(f);
+                    }
+                    if let Some(mq) = self.model.queues.get(&self.names[*q]) {
+                        let n = lens.len().min(mq.recs.len());
+                        for r in &mq.recs[mq.recs.len() - n..] {
+                            let slot = self.attr_all.entry((self.names[*q].clone(), r.pos, r.hash)).or_insert(f);
+                            *slot = (*slot).min(f);
+                        }
                     }
                 }
             }
